@@ -189,7 +189,12 @@ class ProgressivelyTerminalDecider(BaseDecider):
             else:
                 return target - self.grammar.get_distance_to_terminal(n)
 
-        weights = [w(alt) * self.grammar.get_weights()[alt] for alt in alternatives]
+        production_weights = self.grammar.get_weights()
+        weights = [w(alt) * production_weights[alt] for alt in alternatives]
+        if not any(x > 0 for x in weights):
+            # The depth heuristic is zero for every weighted alternative (e.g. all of them are as deep as the
+            # deepest node of the grammar): choose by the production weights alone.
+            weights = [production_weights[alt] for alt in alternatives]
         return self.random.choice_weighted(alternatives, weights)
 
 
